@@ -18,3 +18,5 @@ def run(prog, rep):
     r_flow.run_forward(prog, rep, which=(), mode='PositionMatch', rid='R-FORWARD-PM', floor=10)
     from ..rules import r_safe as _rs
     _rs.run_stale_size(prog, rep)
+    from ..rules import r_key as _rkx
+    _rkx.run_handles_only(prog, rep)
